@@ -267,6 +267,10 @@ const NK: usize = 4; // keys 0..3 per verifier
 const NP: usize = 7; // mock policies 0..6 in HOST ORDER of their addresses (= Map key order)
 const NT: usize = 3; // call targets / wasm hashes
 const MAX_TTL: u32 = 3_000_000;
+/// long-horizon Env of the "long idle" sequences: max_entry_ttl ~ 1 year, persistent entries of the
+/// unmodified code (min_persistent_entry_ttl = max - 1) outlive the 132 idle days
+const LONG_TTL: u32 = 6_312_000;
+const DAY: u32 = 17_280;
 
 #[derive(Clone, Copy, Debug, PartialEq, Eq, PartialOrd, Ord)]
 enum Sg {
@@ -329,6 +333,7 @@ struct Sim {
     now: u32,
     adds: u32, // number of accepted add_context_rule calls (= next id)
     nonce: i64,
+    max_ttl: u32,
 }
 
 fn all_types() -> Vec<Ty> {
@@ -345,7 +350,10 @@ fn all_types() -> Vec<Ty> {
 impl Sim {
     /// The account is constructed with one Default rule (id 0) made of `s0` / `p0`.
     fn new(start: u32, s0: &[Sg], p0: &[usize]) -> Option<Sim> {
-        let e = new_env(start, 16, MAX_TTL);
+        Self::new_with(start, s0, p0, MAX_TTL)
+    }
+    fn new_with(start: u32, s0: &[Sg], p0: &[usize], max_ttl: u32) -> Option<Sim> {
+        let e = new_env(start, 16, max_ttl);
         let dels: Vec<Address> = (0..ND).map(|_| <Address as soroban_sdk::testutils::Address>::generate(&e)).collect();
         let mut vers: Vec<Address> = (0..NV - 1).map(|_| e.register(MockVerifier, ())).collect();
         vers.push(<Address as soroban_sdk::testutils::Address>::generate(&e));
@@ -356,7 +364,7 @@ impl Sim {
         }
         let pols: Vec<Address> = m.keys().iter().collect();
         let tgts: Vec<Address> = (0..NT).map(|_| e.register(Target, ())).collect();
-        let mut sim = Sim { e, acct: dels[0].clone(), dels, vers, pols, tgts, now: start, adds: 0, nonce: 1000 };
+        let mut sim = Sim { e, acct: dels[0].clone(), dels, vers, pols, tgts, now: start, adds: 0, nonce: 1000, max_ttl };
         let signers = sim.signers_vec(s0);
         let policies = sim.policy_map(p0);
         e_mock_all(&sim.e);
@@ -672,7 +680,7 @@ impl Sim {
     }
     fn ledger(&mut self, t: &mut Trace, seq: u32) {
         self.now = seq;
-        set_ledger(&self.e, seq, 16, MAX_TTL);
+        set_ledger(&self.e, seq, 16, self.max_ttl);
         t.op(&format!("sa ledger seq={}", seq));
         self.finish_op(t, true, None, vec![], false);
     }
@@ -1134,6 +1142,144 @@ fn gen_seq(rng: &mut Rng, t: &mut Trace, k: u64, seed: u64, len: u64) {
     }
 }
 
+
+// ------------------------------------------------------------------------------------------
+// "long idle" sequences: build a rule set, then let 1, 31 and 100 days pass WITHOUT touching the
+// account, and look at every getter and at checks whose outcome depends on each stored rule.
+// A rule-store entry kept in storage that expires (temporary + ~30 day extension) shows here.
+// ------------------------------------------------------------------------------------------
+fn probe_rules(rng: &mut Rng, s: &mut Sim, g: &Gen, t: &mut Trace) {
+    let rules = g.rules.clone();
+    for r in rules.iter() {
+        let ctx = match r.ty {
+            Ty::C(a) => Cx::C(a, rng.below(3) as usize),
+            Ty::K(h) => Cx::K(h, rng.below(2) as usize),
+            Ty::D => {
+                // a context type without specific rules, if there is one, so that Default decides
+                let free: Vec<Cx> = (0..NT)
+                    .flat_map(|i| vec![Cx::C(i, 0), Cx::K(i, 0)])
+                    .filter(|c| {
+                        !rules.iter().any(|x| match (c, x.ty) {
+                            (Cx::C(a, _), Ty::C(b)) => *a == b,
+                            (Cx::K(a, _), Ty::K(b)) => *a == b,
+                            _ => false,
+                        })
+                    })
+                    .collect();
+                if free.is_empty() {
+                    rand_ctx(rng)
+                } else {
+                    *rng.pick(&free)
+                }
+            }
+        };
+        let sigs: Vec<(Sg, u8)> = r.signers.iter().map(|x| (*x, 1u8)).collect();
+        let auth: Vec<usize> = {
+            let mut a: Vec<usize> = r.signers.iter().filter_map(|x| if let Sg::D(i) = x { Some(*i) } else { None }).collect();
+            a.sort();
+            a.dedup();
+            a
+        };
+        s.check(t, &sigs, &auth, &[ctx]);
+        if !sigs.is_empty() && rng.chance(50) {
+            let skip = rng.below(sigs.len() as u64) as usize;
+            let fewer: Vec<(Sg, u8)> = sigs.iter().enumerate().filter(|(i, _)| *i != skip).map(|(_, x)| *x).collect();
+            s.check(t, &fewer, &auth, &[ctx]);
+        }
+        if let (Ty::C(a), true) = (r.ty, rng.chance(30)) {
+            let ext: Vec<(Sg, u8)> = sigs.iter().filter(|(x, _)| matches!(x, Sg::X(v, _) if *v < 2)).cloned().collect();
+            s.e2e(t, &ext, a, &[(a + 1) % NT]);
+        }
+    }
+}
+
+fn idle_seq(rng: &mut Rng, t: &mut Trace, label: &str) {
+    let start = *rng.pick(&[100u32, 4000]);
+    let n0 = 1 + rng.below(2) as usize;
+    let s0 = rand_signers(rng, n0);
+    let mut s = match Sim::new_with(start, &s0, &[], LONG_TTL) {
+        Some(s) => s,
+        None => return,
+    };
+    t.seq(&format!("idle {} start={} maxttl={} s0={} p0=-", label, start, LONG_TTL, plus(&s0)));
+    let mut g = Gen { rules: vec![] };
+    // rule set: restrictive specific rules, plain specific rules, Default with policies; valid_until
+    // absent, far in the future, inside the gaps, and exactly at / one before the ledgers visited
+    let stops = [start + DAY, start + 32 * DAY, start + 132 * DAY];
+    let vus: Vec<Option<u32>> = vec![
+        None,
+        None,
+        Some(start + 200 * DAY),
+        Some(start + 10 * DAY),
+        Some(start + 50 * DAY),
+        Some(stops[0]),
+        Some(stops[1]),
+        Some(stops[1] - 1),
+        Some(stops[2]),
+        Some(stops[2] - 1),
+    ];
+    let types = [Ty::C(0), Ty::C(0), Ty::D, Ty::K(0), Ty::C(1), Ty::D, Ty::K(1), Ty::C(0)];
+    let n = 6 + rng.below(3) as usize;
+    for i in 0..n {
+        let ty = if rng.chance(75) { types[i % types.len()] } else { rand_type(rng) };
+        let ns = 1 + rng.below(3) as usize;
+        let sg = rand_signers(rng, ns);
+        let np = *rng.pick(&[0usize, 0, 1, 1, 2]);
+        let mut ps: Vec<usize> = vec![];
+        while ps.len() < np {
+            let p = rng.below(NP as u64) as usize;
+            if !ps.contains(&p) {
+                ps.push(p);
+            }
+        }
+        let vu = *rng.pick(&vus);
+        if s.add(t, ty, vu, &sg, &ps, 1) && !ps.is_empty() && rng.chance(50) {
+            // make it restrictive: the policy wants every signer of the rule
+            s.pset(t, ps[0], "thr", s.adds - 1, sg.len() as u32);
+        }
+    }
+    g.refresh(&s);
+    for _ in 0..2 {
+        if let Some(r) = g.rules.get(rng.below(g.rules.len().max(1) as u64) as usize).cloned() {
+            if rng.chance(50) {
+                s.add_signer(t, r.id, rand_signer(rng));
+            } else {
+                s.add_policy(t, r.id, rng.below(NP as u64) as usize);
+            }
+        }
+    }
+    g.refresh(&s);
+    probe_rules(rng, &mut s, &g, t);
+    for stop in stops {
+        // nothing touches the account while the ledger jumps
+        s.ledger(t, stop);
+        g.refresh(&s);
+        probe_rules(rng, &mut s, &g, t);
+        for _ in 0..3 {
+            gen_check(rng, &mut s, &g, t, false);
+        }
+        // an exact duplicate of a stored rule's requirements must still be refused
+        if !g.rules.is_empty() {
+            let r0 = rng.pick(&g.rules).clone();
+            s.add(t, r0.ty, None, &r0.signers, &r0.policies, 1);
+        }
+        // ids and the counter go on where they were
+        let ns = 1 + rng.below(2) as usize;
+        let sg = rand_signers(rng, ns);
+        let (ty, vu) = (rand_type(rng), *rng.pick(&vus));
+        s.add(t, ty, vu, &sg, &[], 1);
+        g.refresh(&s);
+        if g.rules.len() > 3 && rng.chance(60) {
+            let id = rng.pick(&g.rules).id;
+            s.rm(t, id);
+        }
+        if let Some(r) = g.rules.get(rng.below(g.rules.len().max(1) as u64) as usize).cloned() {
+            s.add_signer(t, r.id, rand_signer(rng));
+        }
+        g.refresh(&s);
+    }
+}
+
 // ------------------------------------------------------------------------------------------
 // directed scenarios
 // ------------------------------------------------------------------------------------------
@@ -1260,6 +1406,12 @@ fn main() {
     let mut rng = Rng::new(seed);
     if !std::env::args().any(|a| a == "--no-directed") {
         directed(&mut t);
+        let mut fixed = Rng::new(0xC03);
+        idle_seq(&mut fixed, &mut t, "fixed");
+    }
+    let nidle = arg_u64("--idle", if thorough { 10 } else { 3 });
+    for k in 0..nidle {
+        idle_seq(&mut rng, &mut t, &format!("k={} seed={}", k, seed));
     }
     for k in 0..nseq {
         gen_seq(&mut rng, &mut t, k, seed, len);
